@@ -476,12 +476,12 @@ static std::string run_case(const Case &c, double limit_s)
 // ------------------------------------------------------------------ case generator
 enum ShareDev { SH_NONE = 0, SH_SFB, SH_WS_OK, SH_WS_BADANS, SH_WS_NOANS, SH_WS_NOMARK, SH_FALSECOMPL, SH_COMPL_NOREASON, SH_NOCOMMIT,
 	SH_PARTCOMMIT, SH_BADCOMMIT, SH_NEGSHARE, SH_CRASH, SH_DUPCOMPL, SH_WS_HAT, SH_COUNT };
-enum OpenDev { OP_NONE = 0, OP_VAL1, OP_RAND1, OP_WITHHELD, OP_PLUSQ, OP_MINUSQ, OP_HALF, OP_BADRECSHARE, OP_COUNT };
+enum OpenDev { OP_NONE = 0, OP_VAL1, OP_RAND1, OP_WITHHELD, OP_PLUSQ, OP_MINUSQ, OP_HALF, OP_BADRECSHARE, OP_BOTHQ, OP_QHALF, OP_COUNT };
 static const char *SH_NAME[] = { "", "sfb", "wrongshare-answered", "wrongshare-badanswer", "wrongshare-noanswer", "wrongshare-nomarker", "falsecomplaint", "complaint-noreason",
 	"nocommit", "partcommit", "badcommit", "negshare", "silent", "dupcomplaint", "wronghat-answered" };
-static const char *OP_NAME[] = { "", "open-value+1", "open-rand+1", "open-withheld", "open-plusq", "open-minusq", "open-halfwithheld", "badrecshare" };
+static const char *OP_NAME[] = { "", "open-value+1", "open-rand+1", "open-withheld", "open-plusq", "open-minusq", "open-halfwithheld", "badrecshare", "open-both-plusq", "open-plusq-halfwithheld" };
 static bool sh_drops(int sh) { return sh == SH_WS_NOANS || sh == SH_WS_NOMARK || sh == SH_NOCOMMIT || sh == SH_PARTCOMMIT; }
-static bool op_drops(int op) { return op == OP_WITHHELD || op == OP_HALF; }
+static bool op_drops(int op) { return op == OP_WITHHELD || op == OP_HALF || op == OP_QHALF; }
 
 struct Plan { int n, t, f; int sh[3], op[3]; };
 // the first cases of every seed: every deviation kind at least once, every n, the configuration of tests/t-astc.cc
@@ -510,6 +510,10 @@ static const Plan PLAN[] = {
 	{ 6, 0, 0, { 0, 0, 0 }, { 0, 0, 0 } },
 	{ 7, 1, 1, { SH_WS_OK, 0, 0 }, { OP_WITHHELD, 0, 0 } },
 	{ 3, 1, 1, { SH_WS_NOANS, 0, 0 }, { OP_NONE, 0, 0 } },
+	// BOTH opening values out of range / one out of range and the other withheld: the same party is complained about
+	// twice in one Flip (seeded change C17b: the complaint list was no longer de-duplicated, 2 > t = 1)
+	{ 4, 1, 1, { SH_NONE, 0, 0 }, { OP_BOTHQ, 0, 0 } },
+	{ 3, 1, 1, { SH_NONE, 0, 0 }, { OP_QHALF, 0, 0 } },
 };
 static const int NPLAN = (int)(sizeof PLAN / sizeof PLAN[0]);
 static const int PAIRS[][2] = { {2,0},{3,0},{3,1},{4,0},{4,1},{5,0},{5,1},{5,2},{6,0},{6,1},{6,2},{7,0},{7,1},{7,2},{7,3},{2,1},{4,2},{6,3} };
@@ -544,6 +548,8 @@ static void apply_dev(Case &c, SplitMix &g, int me, int sh, int op, int victim)
 	case OP_MINUSQ: d.A(2, (int)g.below(2), negq); break;
 	case OP_HALF: d.D(2, 1); break;
 	case OP_BADRECSHARE: d.A(2, 2 + (int)g.below(2), "1"); break;
+	case OP_BOTHQ: d.A(2, 0, zs(c.q)); d.A(2, 1, zs(c.q)); break;
+	case OP_QHALF: d.A(2, 0, zs(c.q)); d.D(2, 1); break;
 	default: break;
 	}
 	std::string name = SH_NAME[sh];
